@@ -293,6 +293,7 @@ func TestC17(t *testing.T) {
 	types := fmTypes(func(mt *MsgType) bool {
 		return mt.Info.Syntax == "proto2" && len(requiredSlots(mt.Desc, nil, 0, map[protoreflect.FullName]int{})) > 0
 	})
+	requireUsable(t, types, 20)
 	mine := shardTypes(types)
 	rec.Extra("types_with_required_fields", len(types))
 	exhaustive := true
